@@ -292,7 +292,7 @@ def run(prog: L.Prog, args, choices, kwargs=None, path=(), index=()) -> RefOut:
                     total += lp
                     rets.append(np.asarray(ci))
                 else:
-                    sub = run(st.callee, ai, ci, None, p, index + (i,))
+                    sub = run(st.callee, ai, ci, {n_: L.evaluate(e_, np, v) for n_, e_ in st.kwargs} or None, p, index + (i,))
                     sites += sub.sites
                     optional += sub.optional
                     preds += sub.preds
@@ -305,7 +305,7 @@ def run(prog: L.Prog, args, choices, kwargs=None, path=(), index=()) -> RefOut:
             outs = []
             for t in range(st.length):
                 xt = None if xs is None else tree_index(xs, t)
-                sub = run(st.prog, [carry, xt], tree_index(choices[st.addr], t), None, p, index + (t,))
+                sub = run(st.prog, [carry, xt], tree_index(choices[st.addr], t), {n_: L.evaluate(e_, np, v) for n_, e_ in st.kwargs} or None, p, index + (t,))
                 sites += sub.sites
                 optional += sub.optional
                 preds += sub.preds
